@@ -1182,7 +1182,10 @@ class SyncInterpreter(BaseInterpreter[TContext, TEvent]):
                 if on_complete is not None:
                     self._queue_actor_done(child, on_complete)
                 child.stop()
-                self._actors.pop(actor_id, None)
+                # 🆔 Only drop OUR entry: an explicit id may have been reused
+                #    by a newer actor that is still alive.
+                if self._actors.get(actor_id) is child:
+                    self._actors.pop(actor_id, None)
                 logger.info("🧹 Actor thread for '%s' cleaned up.", actor_id)
 
         # 🚀 Start the thread
